@@ -41,12 +41,13 @@ FIELDS = [
     ("STATUS", '"ACTIVE"', "REQ∧ENUM[ACTIVE,DONE]"), ("COUNT", "3", "TYPE[NUMBER]∧RANGE[0,10]"), ("NAME", '"x"', "REQ∧TYPE[STRING]"),
     ("TAGS", '["a"]', "TYPE[LIST]∧MAX_LENGTH[3]"), ("FLAG", "true", "TYPE[BOOLEAN]"), ("VER", '"1.0"', 'CONST["1.0"]'),
     ("WHEN", '"2024-01-15"', "DATE"), ("FLOW", '"A→B"', 'REGEX["^[A-Z]→[A-Z]$"]'), ("BIG", "1", "TYPE[NUMBER]"), ("WORDS", '"a b"', "MIN_LENGTH[3]∧TYPE[STRING]"),
+    ("PCT", '"2.50%"', 'REGEX["^[0-9]+[.][0-9][0-9]%$"]'), ("OWNER", '"o"', "TYPE[STRING]→§AUDIT"),      # AUDIT is NOT declared in POLICY.TARGETS
 ]
 S, A, B, Lst, I, F, Bo, Doc, Sec = dm.S, dm.A, dm.B, dm.Lst, dm.I, dm.F, dm.Bo, dm.Doc, dm.Sec
 
 BASE = {
     "STATUS": S("ACTIVE"), "COUNT": I(5), "NAME": S("nm"), "TAGS": Lst(S("a"), S("b")), "FLAG": Bo(True), "VER": S("1.0", "quoted"),
-    "WHEN": S("2024-01-15", "quoted"), "FLOW": S("A→B", "bare"), "BIG": F(1e16), "WORDS": S("hello world", "quoted"),
+    "WHEN": S("2024-01-15", "quoted"), "FLOW": S("A→B", "bare"), "BIG": F(1e16), "WORDS": S("hello world", "quoted"), "PCT": S("2.50%", "quoted"), "OWNER": S("me"),
 }
 
 
@@ -82,6 +83,11 @@ def variant_docs():
        extra_nodes=[A("NAME", S("nm")), A("TAGS", Lst(S("a")))])
     mk("nested-block-last", dict(BASE), extra_nodes=[B("SUB", [A("X", I(1))])])
     mk("duplicate-field", dict(BASE), extra_nodes=[A("COUNT", I(99))])
+    mk("bad:PCT:short", dict(BASE, PCT=S("2.5%", "quoted")))
+    # the schema block carries an inheritance target (with and without the marker): it is registered as a routing target for THIS
+    # document only; validating it must not change what the same schema object answers for the other documents
+    out.append(("block-target", Doc([B(SCHEMA, [A(k, v) for k, v in BASE.items()], target="AUDIT"), A("OUTSIDE", S("o"))], name="I",
+                                    meta=[("TYPE", S("X")), ("VERSION", S("1.0", "quoted"))], separator=True)))
     return out
 
 
@@ -115,9 +121,13 @@ _REUSED = {}
 def outcome_api_reused(text):
     """ONE Validator object per worker process serves every document ("validating twice gives the same answer" - also for an
     object that validated other documents before)."""
-    sd = load_schema_by_name(SCHEMA)
+    sd = _REUSED.setdefault("sd", load_schema_by_name(SCHEMA))      # ONE schema object, too (as a long-lived embedding application holds it)
     doc = parse_with_warnings(text)[0]
     v = _REUSED.setdefault("v", Validator(schema=None))
+    if "bt" not in _REUSED:
+        _REUSED["bt"] = parse_with_warnings(render(dict(variant_docs())["block-target"], {}).text)[0]
+    # history: the same objects have just validated a document whose schema block carries an inheritance target
+    v.validate(_REUSED["bt"], strict=False, section_schemas={sd.name: sd})
     first = tuple(sorted({(e.code, e.field_path) for e in v.validate(doc, strict=False, section_schemas={sd.name: sd})}))
     second = tuple(sorted({(e.code, e.field_path) for e in v.validate(doc, strict=False, section_schemas={sd.name: sd})}))
     return ("API", first, second)
@@ -146,6 +156,15 @@ def outcomes(text):
     return res
 
 
+def _mask_ts(o):
+    """routing entries carry a wall-clock timestamp (excluded by the property: 'apart from their timestamps')"""
+    if isinstance(o, dict):
+        return {k: ("<ts>" if k == "timestamp" else _mask_ts(v)) for k, v in o.items()}
+    if isinstance(o, list):
+        return [_mask_ts(x) for x in o]
+    return o
+
+
 def compare(base, other, viol, cs, how):
     for k in base:
         if base[k] != other[k]:
@@ -161,12 +180,15 @@ def check_doc(case) -> Res:
     texts = []
     steps = len(base)
     cs0 = dict(label=label, doc=d, choices={})
+    if base.get("api:reused-object", ("",))[0] == "API-REUSED-OBJECT-DIFFERS":
+        viol.append(dict(descriptor="api:reused-validator-or-schema-object-answers-differently", case=cs0, observed=str(base["api:reused-object"])[:500],
+                         expected="the same (code, field) set as fresh Validator and schema objects give, twice in a row"))
     # read-only / repeatability on the canonical rendering
     for p in PROFILES:
         r1 = sl.call("v", content=x0, schema=SCHEMA, profile=p)
         r2 = sl.call("v", content=x0, schema=SCHEMA, profile=p)
         steps += 2
-        if json.dumps(r1, sort_keys=True, default=str) != json.dumps(r2, sort_keys=True, default=str):
+        if json.dumps(_mask_ts(r1), sort_keys=True, default=str) != json.dumps(_mask_ts(r2), sort_keys=True, default=str):
             viol.append(dict(descriptor=f"validate-twice-differs:{p}", case=cs0, observed=str(r2)[:300], expected="equal envelopes"))
         if r1.get("status") == "success" and r1["canonical"] != emit(parse_with_warnings(x0)[0]):
             viol.append(dict(descriptor=f"fix-off-canonical-differs-from-plain:{p}", case=cs0, observed=r1["canonical"], expected=emit(parse_with_warnings(x0)[0])))
@@ -288,6 +310,14 @@ def check_cli(case) -> Res:
         status = [ln for ln in q.output.split("\n") if ln.startswith("validation_status:")]
         o = (q.exit_code, status[0] if status else None)
         texts.append(r.text)
+        # read-only: the canonical text the CLI prints equals plain canonicalisation of the input
+        try:
+            plain = emit(parse_with_warnings(r.text)[0])
+            if not q.output.startswith(plain + "\n"):
+                viol.append(dict(descriptor="cli-canonical-differs-from-plain-canonicalisation", case=dict(label=label, doc=d, choices={str(k): v for k, v in ch.items()}),
+                                 observed=q.output[:400], expected=plain[:400]))
+        except (LexerError, ParserError):
+            pass
         if not ch:
             outs["base"] = o
         elif o != outs["base"]:
@@ -307,6 +337,10 @@ def cli_docs():
                         ("meta-missing-version", [("TYPE", S("X"))]), ("meta-bad-status", [("TYPE", S("X")), ("VERSION", S("1.0", "quoted")), ("STATUS", S("NOPE"))]),
                         ("meta-type-number", [("TYPE", I(5)), ("VERSION", S("1.0", "quoted"))])):
         out.append((label, Doc([A("K", S("A→B", "bare")), B("B1", [A("L", Lst(S("a"), S("b c", "quoted")))])], name="M", meta=meta, separator=True)))
+    # verbatim containers whose bytes a trim would change
+    zws = dm.Zone("hard break  \n\t\n   \nlast\t", "md", "```")
+    out.append(("zone-and-frontmatter-trailing-ws", Doc([A("K", zws), B("B1", [A("Z", zws)])], name="M", separator=True, frontmatter="name: x  \ndescription: y\t",
+                                                        meta=[("TYPE", S("X")), ("VERSION", S("1.0", "quoted"))])))
     return out
 
 
